@@ -150,6 +150,9 @@ def make_feature(c, name):
         return Ones()
     if name == "module_output":
         return Fe.ModuleOutput(UFModel(1, name="G"), inputs=["log_moneyness", "time_to_maturity"])
+    if name == "module_output_max":
+        # a module feature whose own inputs are running maxima (state kept by a nested, re-bound feature must not leak)
+        return Fe.ModuleOutput(UFModel(1, name="G"), inputs=["max_log_moneyness", "max_moneyness"])
     return get_feature(name)
 
 
